@@ -45,7 +45,7 @@ PrefixKids(G, nu, kids, i) ==   \* kids reachable at the start position
 
 LeftEdges(G, nu, n) ==
   LET g == G[n] IN
-  CASE g.k \in {"opt", "memo", "named", "pass"} -> {<<g.kids[1], FALSE>>}
+  CASE g.k \in {"opt", "memo", "named", "pass", "ltrim", "rtrim", "single", "suppress"} -> {<<g.kids[1], FALSE>>}
     [] g.k = "any" -> {<<g.kids[i], FALSE>> : i \in 1..Len(g.kids)}
     [] g.k = "choice" -> {<<g.kids[i], i < Len(g.kids)>> : i \in 1..Len(g.kids)}
     [] g.k = "seq" ->
